@@ -19,13 +19,20 @@ RULE = ("model tie: (1) Metadata(metafile)._map_pieces() -> per piece the (full,
         "granularity layouts from the boundary size set; (2) Metadata._match_v1 with the real _index_contents and find_matches (copypath "
         "recorded) vs the extracted match_v1: per piece skipped/matched/failed and the exact sequence of copypath calls, on generated "
         "candidate sets (intact, wholly wrong, one byte off, other size, absent; damaged digests; files sharing a name); (3) "
-        "Metadata._check_parts vs safe_comp.  End to end: generated payloads (random trees and structured layouts with files ending on "
+        "Metadata._check_parts vs safe_comp; (4) Metadata(metafile) -- name, meta_version, piece_length, pieces, is_file and per entry "
+        "path / full (pathlib parts) / filename / length / root, or refusal with any exception -- vs the extracted metadata_of_bytes (the "
+        "model of pyben.loads + Metadata.extract/_parse_tree/__init__) on the same bytes: metafiles of every creator and of the reference "
+        "encoder, C19's hostile metafiles, every hostile element at every key position of a file tree with sibling directories three "
+        "levels deep, single-file forms and their neighbours, odd shapes, random changes of shape; (5) Metadata._match_v2 with the real "
+        "_index_contents and HasherV2 (copypath and the callback recorded) vs the extracted extract + match_v2: count and exact copypath "
+        "sequence, candidates intact / every byte different / one byte off / longer (genuine bytes then junk) / shorter / empty / absent, "
+        "files sharing a name, empty files, metafiles whose recorded root or length was changed.  End to end: generated payloads (random trees and structured layouts with files ending on "
         "piece boundaries, empty files first/middle/last, several files per directory, single files), metafiles from the v1/v2/hybrid "
         "creators and the reference encoder, an intact copy of EVERY file scattered under its own name over 1-3 search roots at depth "
-        "0-3 next to unrelated files and decoys (other size; same size with every byte different, placed before and after the intact "
-        "copy in the enumeration order, which the runner controls by patching os.listdir to sorted / reverse sorted), batches of 2-3 "
+        "0-3 next to unrelated files and decoys (other size; longer with the genuine bytes first, enumerated before the intact copy; same size with every byte different, "
+        "placed before and after the intact copy in the enumeration order, which the runner controls by patching os.listdir to sorted / reverse sorted), batches of 2-3 "
         "metafiles sharing a destination, destinations absolute / relative / '.', Assembler API / CLI in process / unpatched CLI in a "
-        "fresh interpreter; the destination is judged by the reference: every non-empty file present and byte-identical, reference "
+        "fresh interpreter; the destination is judged by the reference: every non-empty file present, of the recorded length and byte-identical, reference "
         "verifier 100% (hybrids in both views; a single file torrent must be a regular file dest/name), every counted file present, "
         "nothing else in the destination, no mutation outside it.  Separate small streams with a partially matching decoy enumerated "
         "first (known finding D27) and with aligned v1 metafiles (D28).  A case is non-trivial when it is distinct and copies at least "
@@ -34,7 +41,7 @@ TRUSTED_BASE = rc.TRUSTED_BASE
 ASSUMPTIONS = ["no symbolic links or special files in search directories or destination",
                "the destination starts empty (pre-populated destinations are C14's subject)",
                "zero-length files carry no hash: their absence from the destination is recorded as an observation, not a violation",
-               "the v2 route (Metadata._match_v2: HasherV2 root comparison per candidate) has no Coq model; it is covered end to end only",
+               "v2 route: the candidate's root is the HasherV2 model of Model/HasherV2.v (C02); piece length = 16 KiB * 2^k in the theorems",
                "which candidate is copied is proved under `candidates_clean` only (C13_find_matches_copies_intact_partial; D27)"]
 
 WORKERS = 4
@@ -64,12 +71,15 @@ def evaluate(ctx, case, reply):
             t = by_name[pr["torrent"]]
             if all(rc.d27_shaped(case, t, e, dest) for e, _ in pr["files"]):
                 kind = "incomplete:d27-shaped"
-            elif all(rc.d28_shaped(t, e) for e, _ in pr["files"]):
+            elif all(why == "missing" and rc.d28_shaped(t, e) for e, why in pr["files"]):
                 kind = "incomplete:d28-shaped"
             else:
                 kind = "incomplete"
             ctx.fail(kind, inp, "every non-empty file of the torrent present in the destination and byte-identical",
                      {"torrent": pr["torrent"], "files": pr["detail"], "counter": reply.get("counter")})
+        elif pr["kind"] == "destination-file-length-differs":
+            ctx.fail(pr["kind"], inp, "every file in the destination has exactly the length the metafile records",
+                     {"torrent": pr["torrent"], "detail": pr["detail"], "counter": reply.get("counter")})
         else:
             ctx.fail(pr["kind"], inp, "the rebuilt torrent verifies 100% with the reference verifier",
                      {"torrent": pr["torrent"], "detail": pr["detail"]})
@@ -141,6 +151,8 @@ def run(ctx, model_ok):
     comps = rc.HOSTILE + rc.EXTRA_COMPONENTS
     lists = [list(s) for k in (0, 1, 2, 3) for s in itertools.product(rc.HOSTILE[:5] + ["..x"], repeat=k)][:400]
     rc.check_parts_tie(ctx, model_ok, comps, lists)
+    rc.extract_tie(ctx, model_ok)
+    rc.match_v2_tie(ctx, model_ok)
     e2e(ctx)
 
 
